@@ -1,0 +1,130 @@
+//! C14: `BloomTokenLog::check_and_insert` (period turn-over exact; filter contents exact while a
+//! filter is a hash set, opaque once it is a bloom filter).
+//!
+//! Requests (first token `bloomlog` removed):
+//!   new <max_bytes> <k_num>
+//!   do <nonce> <issued_ns> <lifetime_ns>                   performs the call, remembers the outcome
+//!                                                          (used unrecorded by generators to observe
+//!                                                          the implementation's free choices)
+//!   check <nonce> <issued_ns> <lifetime_ns> <res> <modes>  reports the remembered outcome of the same
+//!                                                          call, or performs it now
+//! Response: <ok|reuse> p1=<period_1_start ns> f1=<S:sorted,fingerprints|B> f2=<..>
+//! <res> = ok|reuse and <modes> = two letters S|B are the implementation's observed choices (bloom
+//! false positives, hash-set capacity driven conversion) which the model validates.
+use super::{Comp, BAD};
+use crate::{BloomTokenLog, Duration, SystemTime, TokenLog, UNIX_EPOCH};
+
+const NS: u128 = 1_000_000_000;
+
+pub(super) struct BloomLogC {
+    log: BloomTokenLog,
+    pending: Option<((u128, u128, u128), String)>,
+}
+
+impl BloomLogC {
+    pub(super) fn new() -> Self {
+        Self {
+            log: BloomTokenLog::new(64, 3),
+            pending: None,
+        }
+    }
+
+    fn call(&mut self, n: u128, i: u128, l: u128) -> Option<String> {
+        let issued = time(i)?;
+        let lifetime = dur(l)?;
+        let r = self.log.check_and_insert(n, issued, lifetime);
+        let (p1, f1, f2) = self.log.verif_state();
+        Some(format!(
+            "{} p1={} f1={} f2={}",
+            if r.is_ok() { "ok" } else { "reuse" },
+            p1.duration_since(UNIX_EPOCH).map_or(0, |d| d.as_nanos()),
+            show(&f1),
+            show(&f2)
+        ))
+    }
+}
+
+fn show(f: &Option<Vec<u64>>) -> String {
+    match f {
+        None => "B".into(),
+        Some(v) => format!(
+            "S:{}",
+            v.iter().map(|x| x.to_string()).collect::<Vec<_>>().join(",")
+        ),
+    }
+}
+
+fn u128p(s: &str) -> Option<u128> {
+    if s.is_empty() || !s.bytes().all(|b| b.is_ascii_digit()) {
+        return None;
+    }
+    s.parse().ok()
+}
+
+fn time(ns: u128) -> Option<SystemTime> {
+    let secs = ns / NS;
+    if secs > i64::MAX as u128 {
+        return None;
+    }
+    UNIX_EPOCH.checked_add(Duration::new(secs as u64, (ns % NS) as u32))
+}
+
+fn dur(ns: u128) -> Option<Duration> {
+    let secs = ns / NS;
+    if secs > u64::MAX as u128 {
+        return None;
+    }
+    Some(Duration::new(secs as u64, (ns % NS) as u32))
+}
+
+/// observed choices carried by a `check` request
+fn choices(res: &str, modes: &str) -> bool {
+    matches!(res, "ok" | "reuse") && matches!(modes, "SS" | "SB" | "BS" | "BB")
+}
+
+impl Comp for BloomLogC {
+    fn exec(&mut self, w: &[&str]) -> String {
+        match w {
+            ["new", mb, k] => {
+                let (Some(mb), Some(k)) = (u128p(mb), u128p(k)) else {
+                    return BAD.into();
+                };
+                let (Ok(mb), Ok(k)) = (usize::try_from(mb), u32::try_from(k)) else {
+                    return BAD.into();
+                };
+                if mb > 1 << 24 {
+                    return BAD.into();
+                }
+                self.log = BloomTokenLog::new(mb, k);
+                self.pending = None;
+                "ok".into()
+            }
+            ["do", n, i, l] => {
+                let (Some(n), Some(i), Some(l)) = (u128p(n), u128p(i), u128p(l)) else {
+                    return BAD.into();
+                };
+                self.pending = None;
+                let Some(r) = self.call(n, i, l) else {
+                    return BAD.into();
+                };
+                self.pending = Some(((n, i, l), r.clone()));
+                r
+            }
+            ["check", n, i, l, res, modes] => {
+                let (Some(n), Some(i), Some(l)) = (u128p(n), u128p(i), u128p(l)) else {
+                    return BAD.into();
+                };
+                if !choices(res, modes) {
+                    return BAD.into();
+                }
+                if let Some((args, r)) = self.pending.take() {
+                    if args == (n, i, l) {
+                        return r;
+                    }
+                }
+                self.call(n, i, l).unwrap_or_else(|| BAD.into())
+            }
+            _ => BAD.into(),
+        }
+    }
+}
